@@ -234,7 +234,9 @@ func (c05) Run(in0 any) any {
 // ---------- Gallina ----------
 
 func c05CoqNat(n int) string {
-	if n < 1000 {
+	// a nat numeral is elaborated into n applications of S: a table of a thousand records numbered by
+	// numerals costs more to type-check (14 s) than to evaluate; beyond a few dozen use the primitive literal
+	if n < 32 {
 		return coqNat(n)
 	}
 	return coqNatBig(n)
@@ -1356,10 +1358,260 @@ func c05GenLong(r *rand.Rand, withArrays bool) c05In {
 	return c05In{Kind: kind, Pats: toBs(keys), Paths: paths, Origin: origin, Flavour: "long"}
 }
 
+// ---------- big tables (the double array outgrows 2^16 cells) and very long keys / paths ----------
+//
+// The lookup keeps (position in the path, node index) of every parameter node it passes, to come back to it.
+// Both numbers are only bounded by the size of the table and of the path: the families below put parameter
+// nodes beyond cell 65536 (a thousand or more records whose tails share little) and beyond byte 65536 of a
+// key / path (a literal run of ~70 000 bytes in front of a placeholder), and look up paths that have to come
+// back to such a node after a literal sibling led nowhere. No dumped arrays (the representation check is
+// quadratic): trie model + property predicate, one case for the whole table so that its text is parsed once.
+
+var c05BigLits = []string{"default", "latest", "current", "self", "all", "public", "-"}
+
+// one service = records under one prefix P = /<number>-<word> (the number first: two services differ within
+// their first bytes, which keeps the pairwise shape comparison of wf_patset cheap), with long tails:
+//   P/:id/w1/w2/:k2/w3/w4/:k3/w5/:k4[/w6]     P/:id/w1/w7/:k5/w8[/w9/:k6]   (shares /:id/w1/ with the first)
+//   P/lit/w1/w2/:k2/w3/w10/*rest   (a literal sibling of :id that spells the first record for a while)
+//   P/:id                          (ends on the parameter)
+func c05BigService(r *rand.Rand, n int) []string {
+	w := func() string { return c05LongRes[r.Intn(len(c05LongRes)-2)] }
+	ww := func(not string) string {
+		for {
+			if x := w(); x != not {
+				return x
+			}
+		}
+	}
+	p := fmt.Sprintf("/%d-%s", 100+n, w())
+	id := []string{"id", "uid", "name", "key"}[r.Intn(4)]
+	w1, w2, w3, w4 := w(), w(), w(), w()
+	a := p + "/:" + id + "/" + w1 + "/" + w2 + "/:k2/" + w3 + "/" + w4 + "/:k3/" + w() + "/:k4"
+	if r.Intn(2) == 0 {
+		a += "/" + w()
+	}
+	out := []string{a}
+	if r.Intn(4) > 0 {
+		b := p + "/:" + id + "/" + w1 + "/" + ww(w2) + "/:k5/" + w()
+		if r.Intn(2) == 0 {
+			b += "/" + w() + "/:k6"
+		}
+		out = append(out, b)
+	}
+	if r.Intn(2) == 0 {
+		lit := c05BigLits[r.Intn(len(c05BigLits))]
+		out = append(out, p+"/"+lit+"/"+w1+"/"+w2+"/:k2/"+w3+"/"+ww(w4)+"/*rest")
+	}
+	if r.Intn(4) == 0 {
+		out = append(out, p+"/:"+id)
+	}
+	return out
+}
+
+// highest cell of the array that is in use
+func c05UsedCells(bc []uint32) int {
+	for i := len(bc) - 1; i >= 0; i-- {
+		if bc[i]&0xfffffcff != 0 {
+			return i + 1
+		}
+	}
+	return 0
+}
+
+// c05BigTable adds services until the real array uses at least minCells cells.
+func c05BigTable(r *rand.Rand, minCells int) (groups [][]string, keys []string, bc []uint32) {
+	n, est := 0, 0
+	for round := 0; round < 60; round++ {
+		for est < minCells+minCells/100 {
+			g := c05BigService(r, n)
+			n++
+			groups = append(groups, g)
+			for _, k := range g {
+				keys = append(keys, k)
+				est += len(k) * 4 / 5 // about what a key adds to the array: its literal bytes beyond the service prefix
+			}
+		}
+		bc = c05DumpBC(keys)
+		used := c05UsedCells(bc)
+		if used >= minCells || used == 0 {
+			break
+		}
+		est = used // what was built so far counts for what it really took
+	}
+	return groups, keys, bc
+}
+
+// the highest node index at which the key takes a parameter or wildcard edge in the real array (0: none / not spelled)
+func c05MaxParamNode(a c05Arr, key string) int {
+	idx, best := 1, 0
+	for i := 0; i < len(key); {
+		c := key[i]
+		j, ok := a.edge(idx, c)
+		if !ok {
+			return best
+		}
+		if c == ':' || c == '*' {
+			if idx > best {
+				best = idx
+			}
+			for i < len(key) && key[i] != '/' {
+				i++
+			}
+		} else {
+			i++
+		}
+		idx = j
+	}
+	return best
+}
+
+// c05InstWith instantiates key; a placeholder segment at the position of a literal segment of other (a key of
+// the same service) takes that literal as its value: the walk follows the literal sibling first and has to come back
+func c05InstWith(r *rand.Rand, key, other string) string {
+	ks, os := strings.Split(key, "/"), strings.Split(other, "/")
+	out := make([]string, 0, len(ks))
+	for i, s := range ks {
+		switch {
+		case strings.HasPrefix(s, ":") && i < len(os) && os[i] != "" && !strings.ContainsAny(os[i], ":*"):
+			v := os[i]
+			switch r.Intn(4) {
+			case 0:
+				v += "x"
+			case 1:
+				if len(v) > 1 {
+					v = v[:len(v)-1]
+				}
+			}
+			out = append(out, v)
+		case strings.HasPrefix(s, ":"):
+			out = append(out, c05LongVals[r.Intn(len(c05LongVals))])
+		case strings.HasPrefix(s, "*"):
+			out = append(out, "logs/2024/01.txt")
+		default:
+			out = append(out, s)
+		}
+	}
+	return strings.Join(out, "/")
+}
+
+func c05BigPaths(r *rand.Rand, groups [][]string, bc []uint32, nHigh, nLow int) (paths []Bs, origin []string) {
+	a := c05Arr(bc)
+	seen := map[string]bool{}
+	add := func(p, o string) {
+		if !seen[p] {
+			seen[p] = true
+			paths = append(paths, Bs(p))
+			origin = append(origin, o)
+		}
+	}
+	type ref struct{ g, k int }
+	var high, low []ref
+	for gi, g := range groups {
+		for ki, k := range g {
+			if c05MaxParamNode(a, k) >= 1<<16 {
+				high = append(high, ref{gi, ki})
+			} else {
+				low = append(low, ref{gi, ki})
+			}
+		}
+	}
+	emit := func(rs []ref, n int, tag string) {
+		r.Shuffle(len(rs), func(i, j int) { rs[i], rs[j] = rs[j], rs[i] })
+		for i := 0; i < len(rs) && i < n; i++ {
+			g := groups[rs[i].g]
+			k := g[rs[i].k]
+			p, cuts := c05LongInst(r, k)
+			add(p, "inst-"+tag)
+			// the same record reached only after a literal sibling of the service was followed
+			for _, o := range g {
+				if o != k && r.Intn(2) == 0 {
+					add(c05InstWith(r, k, o), "backtrack-"+tag)
+				}
+			}
+			switch r.Intn(6) {
+			case 0:
+				if len(cuts) > 0 {
+					add(p[:cuts[r.Intn(len(cuts))]], "prefix-"+tag)
+				}
+			case 1:
+				add(p+"/"+c05LongRes[r.Intn(len(c05LongRes))], "extended-"+tag)
+			case 2:
+				// head of this instantiation, tail of an instantiation of a sibling record
+				q, qc := c05LongInst(r, g[r.Intn(len(g))])
+				if len(cuts) > 0 && len(qc) > 0 {
+					add(p[:cuts[r.Intn(len(cuts))]]+q[qc[r.Intn(len(qc))]:], "crossover-"+tag)
+				}
+			}
+		}
+	}
+	emit(high, nHigh, "high")
+	emit(low, nLow, "low")
+	return
+}
+
+func c05GenBig(r *rand.Rand, minCells, nHigh, nLow int) c05In {
+	groups, keys, bc := c05BigTable(r, minCells)
+	paths, origin := c05BigPaths(r, groups, bc, nHigh, nLow)
+	return c05In{Kind: "look", Pats: toBs(keys), Paths: paths, Origin: origin, Flavour: "big"}
+}
+
+// a literal run of n bytes made of resource words
+func c05LiteralRun(r *rand.Rand, n int) string {
+	var sb strings.Builder
+	for sb.Len() < n {
+		sb.WriteString("/" + c05LongRes[r.Intn(len(c05LongRes))])
+	}
+	return sb.String()[:n]
+}
+
+// c05GenLongPath: a small table in which a placeholder stands behind a literal run of more than 2^16 bytes (so
+// does the position the lookup has to remember), with a literal sibling that leads nowhere; and a parameter value
+// of more than 2^16 bytes in front of further segments. The text of the case is ~70 KB per long key or path:
+// two keys and three paths in the quick tier, more paths in the thorough tier.
+func c05GenLongPath(r *rand.Rand, tier string) c05In {
+	n := 1<<16 + 100 + r.Intn(900)
+	run := c05LiteralRun(r, n)
+	if strings.HasSuffix(run, "/") {
+		run += "z"
+	}
+	w1, w2 := c05LongRes[r.Intn(20)], c05LongRes[20+r.Intn(20)]
+	keys := []string{run + "/:id/" + w1, run + "/latest/" + w2 + "/:n", "/blob/:sha/raw/:name", "/files/*path", "/blob/:sha"}
+	var paths []Bs
+	var origin []string
+	add := func(p, o string) { paths, origin = append(paths, Bs(p)), append(origin, o) }
+	val := c05LongVals[r.Intn(len(c05LongVals))]
+	add(run+"/"+val+"/"+w1, "longkey-inst")
+	add(run+"/latest/"+w1, "longkey-backtrack") // follows the literal sibling, must come back to :id at a position > 2^16
+	long := strings.Repeat("0123456789abcdef", (1<<16)/16+2+r.Intn(30))
+	add("/blob/"+long+"/raw/readme.txt", "longvalue-inst")
+	add("/blob/x/raw/readme.txt", "inst")
+	add("/files/a/b", "inst")
+	if tier == "thorough" {
+		add(run+"/latest/"+w2, "longkey-miss")
+		add(run+"/latest/"+w2+"/"+val, "longkey-inst")
+		add(run[:1<<16]+"/"+val+"/"+w1, "longkey-miss")
+		add("/blob/"+long, "longvalue-inst")
+		add("/files/"+long+"/raw", "longvalue-wild")
+	}
+	return c05In{Kind: "look", Pats: toBs(keys), Paths: paths, Origin: origin, Flavour: "longpath"}
+}
+
 func (c05) Gen(r *rand.Rand, tier string, i int) any {
 	// three families are scheduled by the case index, so that every seed runs them: reserved bytes inside a
 	// literal segment of a key (i = 1 mod 10), reserved byte after a complete pattern on 10-40 routes (i = 6 mod 10),
 	// few long deeply nested routes (i = 3 mod 10; with the dumped arrays and repr_check for i = 3 mod 20)
+	// one table whose array outgrows 2^16 cells and one key / path longer than 2^16 bytes in every quick run (the
+	// first two generated cases, so that their long evaluation starts at once); a few bigger ones in the thorough tier
+	switch {
+	case i == 0:
+		return c05GenBig(r, 1<<16+4000+r.Intn(3000), 100, 25)
+	case i == 2:
+		return c05GenLongPath(r, tier)
+	case tier == "thorough" && i%500 == 250:
+		return c05GenBig(r, 1<<16+4000+r.Intn(60000), 260, 60)
+	case tier == "thorough" && i%500 == 252:
+		return c05GenLongPath(r, tier)
+	}
 	switch i % 10 {
 	case 1:
 		return c05GenVerbs(r)
